@@ -7,6 +7,34 @@ HERE = os.path.dirname(os.path.dirname(os.path.abspath(__file__)))
 
 # property -> (technique, level text, level note, design ref)
 CLAIMED = {
+    "C15": (
+        "structural rules over the comparam merge and lookup (override key, merge order, "
+        "recursion through the parents' computed view, protocol filter and preference), "
+        "writer/reader agreement between the value parsers' omitted-value marker and the "
+        "default fall-back tests (constant folding of the tests), frozen accessor table",
+        "Decides necessary structural conditions of the comparam resolution for every "
+        "hierarchy: per-(spec id, protocol) override with parents in ascending priority then "
+        "local definitions; lookup by name and protocol name with the protocol-specific "
+        "definition first; default fall-back taken exactly for the marker the parser stores "
+        "for an omitted (sub-)value; each typed accessor reads the parameter it is named for, "
+        "forwards the protocol and converts as specified.",
+        "Not decided: values for concrete hierarchies. Trusted: the ISO comparam names of the "
+        "accessor table (sa/rules/c15.py).",
+        "DESIGN.md section 3, C15"),
+    "C09": (
+        "decision-table extraction of HierarchyElement._compute_available_objects on its CFG, "
+        "category-wiring consistency check (local getter / exclusion list / result slot / public "
+        "property), constant-table check of the layer-type priorities, who-may-write rule for "
+        "parent objects",
+        "Decides the shape of the value-inheritance mechanism for every path: parents merged by "
+        "descending priority from the raw parent references, NOT-INHERITED applied per parent "
+        "reference to the parent's recursive view, lower priority keeps / higher replaces / "
+        "equal priority waived by local override or equality and otherwise reported, locals "
+        "written last; all 17 inherited categories wired to their own getter, exclusion list, "
+        "slot and property; priorities strictly ordered and complete; parents never written.",
+        "Not decided: the resulting object sets of concrete hierarchies. Trusted: the ODX "
+        "priority order as stated in the property; idiom recognisers of sa/rules/c09.py.",
+        "DESIGN.md section 3, C09"),
     "C14": (
         "CFG rules over VariantMatcher.request_loop (control dependence of every yield on the "
         "cache-miss branch, must-pass-through of the cache update after each request, exits of "
